@@ -434,8 +434,12 @@ def rule_collect(prog, rep):
         new = any(f[0] == "callbool" and re.search(r"HashSet::<T, S(, A)?>::insert$", f[1]) and f[3] is True and fn.sym(f[4].args[0]) == "&arg4" and "fragment_name" in fn.sym(f[4].args[1]) for f in fs)
         app = any(f[0] == "callbool" and f[1].endswith("does_fragment_type_apply") and f[3] is True and fn.sym(f[4].args[1]) == "&arg2" and "Fragment::type_condition(" in fn.sym(f[4].args[2]) for f in fs)
         found = any(f[0] == "variant" and f[2] == "Some" and "IndexMap::<K, V, S>::get" in f[1] for f in _strip(fs))
-        oks = same and sel and new and app and found and guard_ok(c.block)
-        why = dict(same=same, selections=sel, first_visit=new, type_applies=app, fragment_found=found, not_skipped=guard_ok(c.block))
+        # the visited set is a side effect: it may be written only for a spread that is not
+        # excluded by @skip/@include (a skipped spread must not hide a later spread of the fragment)
+        ins_calls = [x for x in fn.live_calls() if re.search(r"HashSet::<T, S(, A)?>::insert$", x.name) and fn.sym(x.args[0]) == "&arg4"]
+        marked_only_if_included = len(ins_calls) == 1 and guard_ok(ins_calls[0].block)
+        oks = same and sel and new and app and found and guard_ok(c.block) and marked_only_if_included
+        why = dict(same=same, selections=sel, first_visit=new, type_applies=app, fragment_found=found, not_skipped=guard_ok(c.block), visited_marked_only_if_not_skipped=marked_only_if_included)
     rep.obligation(oks)
     if oks:
         rep.instance("C26.COLLECT", "FragmentSpread: first visit only, fragment found, type condition applies -> recurse into the fragment's selections with the same visited set, groups and object type")
